@@ -145,7 +145,7 @@ U("setopt_args", entry="h_setopt_args", func="cfg_setopt", harness="harness/seto
 
 # ------------------------------------------------------------------ sections
 SECC = dict(remove=["cfg_free", "cfg_dupopt_array", "cfg_init_defaults"], carriers=["carriers/cfg_free.c", "carriers/cfg_dupopt_array.c", "carriers/cfg_init_defaults.c"])
-SECTXT = "7 literal option flag words (MULTI/TITLE/NO_TITLE_DUPES/NOCASE/KEYSTRVAL/DEFINIT) x 2 context flag words; titles 1 byte over all bytes"
+SECTXT = "7 literal option flag words (MULTI/TITLE/NO_TITLE_DUPES/NOCASE/KEYSTRVAL/DEFINIT/NODEFAULT) x 2 context flag words; titles 1 byte over all bytes"
 per_count("setopt_sec", counts_quick=(0, 1, 2), counts_thorough=(0, 1, 2), entry="h_setopt_sec", func="cfg_setopt", harness="harness/sections.c", replay="replay/store_sections.c", replay_by_tag={"C19": "replay/print_layout.c"},
           cbmc=unw(8) + OOM, label="section arm; " + SECTXT + "; any allocation may fail", props=["C01", "C09", "C10", "C07", "C16", "C18", "C06", "C12", "C19", "C11", "C15", "C02"], cost=60, **SECC)
 U("setopt_sec_oom_release", entry="h_setopt_sec_oom_release", func="cfg_setopt", harness="harness/sections.c", defs={"quick": ["-DNV=2"]}, cbmc=unw(8) + OOM + LEAK,
